@@ -426,5 +426,13 @@ theorem allLabels_aligned {s : MState} (hs : SInv s) {dfmt : String} {names : Li
         rw [List.getElem_append_right (by omega)]
 
 
+/-! ### totality: `all_variable_labels` fails only if a name cannot be formatted -/
+
+/-- on a state satisfying the invariant, if every variable has a name (its label / default name
+can be formatted) then `all_variable_labels` succeeds — in particular its final `assert` never fires -/
+theorem allLabels_defined {s : MState} (hs : SInv s) {dfmt : String}
+    (hn : ∀ v, 1 ≤ v → v ≤ s.numvar → ∃ n, varName s.groups dfmt v = .ok n) :
+    ∃ names, allLabels s dfmt = .ok names := sorry
+
 end Vars
 end Cnfgen
